@@ -651,9 +651,15 @@ def _apply_caps(current_node, current_edges, caps):
     return state_node.get_tensor()
 
 
-def _apply_pt_mpos(current_node, current_edges, pt_mpos):
+def _apply_pt_mpos(current_node, current_edges, pt_mpos, reverse=False):
     """
     Apply MPO for forward propagation step
+
+    The MPOs of the environments are applied in list order. With `reverse` they
+    are applied in reversed list order (needed to back-propagate through a
+    step with several environments: the transpose of a product is the product
+    of the transposes in reversed order) and the axes of the returned node are
+    put back into the order of `current_edges`.
 
         before mpo application:
             [1]
@@ -686,7 +692,10 @@ def _apply_pt_mpos(current_node, current_edges, pt_mpos):
             |          |
                        |
     """
-    for i, pt_mpo in enumerate(pt_mpos):
+    indexed_pt_mpos = list(enumerate(pt_mpos))
+    if reverse:
+        indexed_pt_mpos.reverse()
+    for i, pt_mpo in indexed_pt_mpos:
         if pt_mpo is None:
             continue
         pt_mpo_node = tn.Node(pt_mpo)
@@ -697,6 +706,8 @@ def _apply_pt_mpos(current_node, current_edges, pt_mpos):
         current_node = current_node @ pt_mpo_node
         current_edges[i] = new_bond_edge
         current_edges[-1] = new_sys_edge
+    if reverse:
+        current_node.reorder_edges(current_edges)
     return current_node, current_edges
 
 def _apply_derivative_pt_mpos(current_node,current_edges,pt_mpos):
